@@ -28,6 +28,7 @@ def run(ctx, sess):
     ctx.rule('C05.2', 'tag table: every track tag equals FLAG | type << 3 | chunk, the pack helper produces it and the parse helpers invert it (finite-domain evaluation over all 4 x 5 pairs)')
     ctx.rule('C05.3', 'header stamping: in the header writer the CRC store follows every other store to the header and dominates the write of the header')
     ctx.rule('C05.4', 'padding: writer and reader compute the same on-disk payload size for every byte residue, header + payload + pad + crc is a multiple of 8, the pad is zero-filled, the payload CRC is little-endian at the end')
+    ctx.rule('C05.12', 'a repaired file has no INDEX without its SUMMARY: on the not-closed branch of jls_rd_open the tag of the last complete chunk is examined before the truncation, and when it is an INDEX (its SUMMARY was cut off by the crash) the cut moves to the chunk before it (jls_raw_chunk_prev) - the pair is written again by the rebuild')
     ctx.rule('C05.11', 'FSR summary chunks carry what their header announces: the payload length handed to the summary writer is header + entry_count x the entry size that was stored in entry_size_bits (4 x f32 or 4 x f64, chosen by data type), not the size of a fixed struct type')
     ctx.rule('C05.5', 'previous-length bookkeeping: every successful append updates last_payload_length when at the end of the file (also for an empty payload)')
     ctx.rule('C05.6', 'adjacency: after an INDEX chunk is written, the next chunk written on every path is the SUMMARY of the same level')
@@ -42,6 +43,7 @@ def run(ctx, sess):
     r5(ctx, P)
     r5b(ctx, P)
     r11(ctx, P)
+    r12(ctx, P)
     r6(ctx, P)
     r7(ctx, P)
     r8(ctx, P)
@@ -664,3 +666,35 @@ def r11(ctx, P):
                'computed from entry_count and the entry width (%s)' % ', '.join(sorted(width_fns)) if (dep_w and dep_n) else
                'the payload length does not depend on the entry width chosen for this data type: summaries of types with 4 x f64 entries are written half and the reader runs past the payload')
     ctx.floor('FSR summary writes', n, 1)
+
+
+
+def r12(ctx, P):
+    fn = P.fn('jls_rd_open')
+    ctx.saw(fn)
+    tr = list(fn.calls('jls_bk_truncate'))
+    if not tr:
+        raise AnalysisBroken('jls_rd_open: no truncation')
+    # compares of the chunk tag with the INDEX kind
+    tests = []
+    for b in fn.blocks.values():
+        c = strip_casts(b.cond) if b.cond is not None else None
+        if c is None or c.get('op') != 'bin' or c['o'] not in ('==', '!='):
+            continue
+        if any(m.get('op') == 'member' and m.get('field') == 'tag' for m in walk(c)) and \
+                (const_of(c['k'][1]) == 3 or any(m.get('op') == 'ref' and 'INDEX' in (m.get('name') or '') for m in walk(c))):
+            tests.append((b, 'T' if c['o'] == '==' else 'F'))
+    for t in tr:
+        ok = False
+        why = 'no test of the last chunk\'s tag for the INDEX kind before the truncation'
+        for b, lab in tests:
+            i_ = [k for k, (s_, l_) in enumerate(b.succs) if l_ == lab]
+            if not i_:
+                continue
+            w = find_path(fn, (b, i_[0]), lambda e2, facts: 'stop' if (e2.k == 'call' and e2.callee == 'jls_raw_chunk_prev') else ('target' if e2 is t else None), refine=False)
+            if w is None and find_path(fn, (b, i_[0]), lambda e2, facts: 'target' if e2 is t else None, refine=False) is not None:
+                ok = True
+            else:
+                why = 'on the INDEX edge the truncation is reached without stepping to the chunk before'
+        ctx.ob('C05.12', ok, fn.name, 'truncation when the last complete chunk is an INDEX', t.where(),
+               'the cut moves before the INDEX' if ok else why + ': the crash fell between an INDEX and its SUMMARY, the INDEX stays in the file, the rebuild appends a new INDEX / SUMMARY pair after it, and the file then holds INDEX INDEX SUMMARY with the links of the orphan pointing at chunks that no longer point back')
